@@ -136,6 +136,21 @@ type gEnv struct {
 	depth int
 	// R13.4: every value of the container type is the symbol containerSym, the loop index is indexSym
 	containerSym, indexSym string
+	// phiBind: along the acyclic path under evaluation, the incoming value of every phi the path passes
+	// (size := 5 / 9 selected in a switch, returned later): terms are computed per path (withBind)
+	phiBind map[*ssa.Phi]ssa.Value
+}
+
+// withBind evaluates f with the phis bound as on one path; terms computed meanwhile are not kept.
+func (ev *gEnv) withBind(bind map[*ssa.Phi]ssa.Value, f func()) {
+	if len(bind) == 0 {
+		f()
+		return
+	}
+	memo, old := ev.memo, ev.phiBind
+	ev.memo, ev.phiBind = map[ssa.Value]cT{}, bind
+	f()
+	ev.memo, ev.phiBind = memo, old
 }
 
 func (an *agreeAn) loopHeader(p *ssa.Phi) bool {
@@ -342,6 +357,9 @@ func (ev *gEnv) term1(v ssa.Value) cT {
 		if ev.indexSym != "" && isIntegerType(x.Type()) && ev.an.loopHeader(x) {
 			return ev.intSym(ev.indexSym, x.Type())
 		}
+		if e, ok := ev.phiBind[x]; ok {
+			return ev.term(e)
+		}
 		var first string
 		same := true
 		var ft cT
@@ -507,39 +525,45 @@ func (ev *gEnv) callResult(call *ssa.Call, idx int) cT {
 			if !exact {
 				continue
 			}
-			rule := gRule{call: name}
-			for k := 0; k < nres && k < len(ret.Results); k++ {
-				kt := resultType(call, k)
-				rv := ret.Results[k]
-				switch {
-				case isErrorType(kt):
-					e := an.g.v("err:" + name)
-					if _, existed := an.g.ids["err:"+name]; !existed {
-						_ = e
-					}
-					an.axiom(e)
-					an.axiom(kLin(1).sub(e))
-					if isNilConst(rv) {
-						rule.Then = append(rule.Then, gAtom{kind: 'g', l: e.neg()}) // err <= 0
-					} else if knownNonNil(rv) {
-						rule.Then = append(rule.Then, gAtom{kind: 'g', l: e.addK(-1)}) // err >= 1
-					}
-				case isIntegerType(kt):
-					t := sub.term(rv)
-					if t.kind == 'i' {
-						s := ev.intSym(fmt.Sprintf("%s.%d", name, k), kt)
-						rule.Then = append(rule.Then, gAtom{kind: 'g', l: s.l.sub(t.l)}, gAtom{kind: 'g', l: t.l.sub(s.l)})
-					}
-				case isBoolType(kt):
-					t := sub.term(rv)
-					if t.kind == 'i' {
-						s := ev.boolSym(fmt.Sprintf("%s.%d", name, k))
-						rule.Then = append(rule.Then, gAtom{kind: 'g', l: s.l.sub(t.l)}, gAtom{kind: 'g', l: t.l.sub(s.l)})
-					}
-				}
-			}
 			for _, alt := range alts {
-				an.rules = append(an.rules, gRule{call: name, Conds: alt.atoms, Then: rule.Then})
+				alt := alt
+				sub.withBind(alt.bind, func() {
+					rule := gRule{call: name}
+					for k := 0; k < nres && k < len(ret.Results); k++ {
+						kt := resultType(call, k)
+						rv := ret.Results[k]
+						switch {
+						case isErrorType(kt):
+							e := an.g.v("err:" + name)
+							an.axiom(e)
+							an.axiom(kLin(1).sub(e))
+							ev2 := rv
+							if phi, isPhi := rv.(*ssa.Phi); isPhi {
+								if b, bound := alt.bind[phi]; bound {
+									ev2 = b
+								}
+							}
+							if isNilConst(ev2) {
+								rule.Then = append(rule.Then, gAtom{kind: 'g', l: e.neg()}) // err <= 0
+							} else if knownNonNil(ev2) {
+								rule.Then = append(rule.Then, gAtom{kind: 'g', l: e.addK(-1)}) // err >= 1
+							}
+						case isIntegerType(kt):
+							t := sub.term(rv)
+							if t.kind == 'i' {
+								s := ev.intSym(fmt.Sprintf("%s.%d", name, k), kt)
+								rule.Then = append(rule.Then, gAtom{kind: 'g', l: s.l.sub(t.l)}, gAtom{kind: 'g', l: t.l.sub(s.l)})
+							}
+						case isBoolType(kt):
+							t := sub.term(rv)
+							if t.kind == 'i' {
+								s := ev.boolSym(fmt.Sprintf("%s.%d", name, k))
+								rule.Then = append(rule.Then, gAtom{kind: 'g', l: s.l.sub(t.l)}, gAtom{kind: 'g', l: t.l.sub(s.l)})
+							}
+						}
+					}
+					an.rules = append(an.rules, gRule{call: name, Conds: alt.atoms, Then: rule.Then})
+				})
 			}
 		}
 	}
@@ -551,14 +575,21 @@ func (ev *gEnv) callResult(call *ssa.Call, idx int) cT {
 type gAlt struct {
 	atoms []gAtom
 	final []gAtom
+	// bind: the incoming value of every phi on this path (see gEnv.phiBind)
+	bind map[*ssa.Phi]ssa.Value
 }
 
 // exitAlts returns the exact reach condition of block b in a loop-free function as a list of alternatives, one per
 // acyclic path (`a || b` guards and multi-label case clauses give several). exact is false when there are more than
 // 24 paths; the caller then falls back to the dominating conditions, which are necessary but not sufficient.
 func (ev *gEnv) exitAlts(b *ssa.BasicBlock) ([]gAlt, bool) {
+	type pedge struct {
+		b *ssa.BasicBlock
+		k int // index of the predecessor taken
+	}
 	type path struct {
 		conds []Cond // from the exit backwards
+		edges []pedge
 	}
 	const maxPaths = 24
 	over := false
@@ -572,13 +603,17 @@ func (ev *gEnv) exitAlts(b *ssa.BasicBlock) ([]gAlt, bool) {
 			return []path{{}}
 		}
 		var out []path
-		for _, p := range b.Preds {
+		for k, p := range b.Preds {
 			var edge []Cond
 			if ifi, ok := p.Instrs[len(p.Instrs)-1].(*ssa.If); ok && p.Succs[0] != p.Succs[1] {
 				edge = []Cond{{ifi.Cond, p.Succs[0] == b}}
 			}
+			var pe []pedge
+			if _, hasPhi := b.Instrs[0].(*ssa.Phi); hasPhi {
+				pe = []pedge{{b, k}}
+			}
 			for _, pp := range walk(p, depth+1) {
-				np := path{conds: append(append([]Cond{}, edge...), pp.conds...)}
+				np := path{conds: append(append([]Cond{}, edge...), pp.conds...), edges: append(append([]pedge{}, pe...), pp.edges...)}
 				out = append(out, np)
 				if len(out) > maxPaths {
 					over = true
@@ -596,13 +631,29 @@ func (ev *gEnv) exitAlts(b *ssa.BasicBlock) ([]gAlt, bool) {
 	var alts []gAlt
 	for _, p := range paths {
 		var a gAlt
-		for i, cd := range p.conds {
-			as := ev.atoms(cd)
-			if i == 0 {
-				a.final = as
+		if len(p.edges) > 0 {
+			a.bind = map[*ssa.Phi]ssa.Value{}
+			for _, e := range p.edges {
+				for _, ins := range e.b.Instrs {
+					phi, ok := ins.(*ssa.Phi)
+					if !ok {
+						break
+					}
+					if !ev.an.loopHeader(phi) {
+						a.bind[phi] = phi.Edges[e.k]
+					}
+				}
 			}
-			a.atoms = append(a.atoms, as...)
 		}
+		ev.withBind(a.bind, func() {
+			for i, cd := range p.conds {
+				as := ev.atoms(cd)
+				if i == 0 {
+					a.final = as
+				}
+				a.atoms = append(a.atoms, as...)
+			}
+		})
 		alts = append(alts, a)
 	}
 	return alts, true
@@ -1158,19 +1209,27 @@ func runR13_3(c *Ctx, r *R) {
 						continue
 					}
 				}
-				e := exit{ret: ret}
-				last := ret.Results[len(ret.Results)-1]
-				e.ok = isNilConst(last)
-				if sz >= 0 {
-					e.size = ev.term(ret.Results[sz])
-				}
-				e.typ = ev.term(ret.Results[0])
-				// one entry per way of reaching the exit (exact), or one with the dominating conditions
+				// one entry per way of reaching the exit (exact), or one with the dominating conditions; values merged
+				// at joins are read along that way
 				alts, _ := ev.exitAlts(ret.Block())
 				for _, alt := range alts {
-					ea := e
-					ea.conds, ea.final = alt.atoms, alt.final
-					out = append(out, ea)
+					alt := alt
+					ev.withBind(alt.bind, func() {
+						ea := exit{ret: ret}
+						last := ret.Results[len(ret.Results)-1]
+						if phi, isPhi := last.(*ssa.Phi); isPhi {
+							if b, bound := alt.bind[phi]; bound {
+								last = b
+							}
+						}
+						ea.ok = isNilConst(last)
+						if sz >= 0 {
+							ea.size = ev.term(ret.Results[sz])
+						}
+						ea.typ = ev.term(ret.Results[0])
+						ea.conds, ea.final = alt.atoms, alt.final
+						out = append(out, ea)
+					})
 				}
 			}
 			return out
